@@ -67,7 +67,7 @@ def observe(case):
     try:
         htaio.hta_setup()
         from hta.common.trace import Trace
-        t = Trace(trace_files=dict(files), trace_dir=os.path.dirname(files[0]))
+        t = Trace(trace_files=dict(files), trace_dir=os.path.dirname(next(iter(files.values()))))
         try:
             t.parse_traces(use_multiprocessing=False)
         except Exception as e:  # noqa: BLE001
